@@ -35,4 +35,11 @@ CHECKS = {
             dict(name="doc", run="^TestDocCodes$", shards=(1, 1)),
         ],
     ),
+    "C07": dict(
+        pkg="./c07", level="exploration",
+        runs=[
+            dict(name="requests", run="^TestPropRequests$", checks=(4000, 40000), shards=(4, 16)),
+            dict(name="service", run="^TestPropServiceLevel$", checks=(2000, 20000), shards=(2, 8)),
+        ],
+    ),
 }
